@@ -353,6 +353,7 @@ func (in *Interp) beginPath(trace []int) {
 	in.astFwd = nil
 	in.l1 = nil
 	in.syncMaps = nil
+	in.syncPools = nil
 	in.posOverride = nil
 	in.reached = nil
 	in.byteAssumed = map[int]bool{}
